@@ -105,6 +105,10 @@ var mBadTrack = []string{"garbage", "1h60m", "8:00 - 7:00", " 1h", "25:00 - 26:0
 func genCommand(r *core.Rand, doc *ref.Doc, env MEnv, allowPause bool) MCmd {
 	c := genCommand0(r, doc, env, allowPause)
 	c.Warn = r.Bool()
+	if len(c.Summary) > 0 && c.Summary[0] != "" && c.Kind != "create" && core.Hash64("summary-below", c.String())%15 == 0 {
+		// `--summary $'\nFoo'`: the summary starts on the line below the value
+		c.Summary = append([]string{""}, c.Summary...)
+	}
 	if c.Date != nil && core.Hash64("date-notation", c.String())%4 == 0 {
 		c.DateSlash = true // the date argument typed with slashes
 	}
